@@ -27,10 +27,13 @@ def rename_types(schema, mapping):
 
 
 TYPE_RENAMES = {"Robot": "HTTPRobot", "Cat": "tabby_cat"}
+# fragment names whose snake_case form (the name of the flattened member that holds them) is a Rust keyword (defect D32)
+FRAG_RENAMES = {"FragA": "Type", "FragB": "Match", "FragC": "Async"}
 
 
-def rename_program(p, mapping=TYPE_RENAMES, op_name=None):
-    """pure renaming of a program and its vectors: non-UpperCamelCase type (and operation) names"""
+def rename_program(p, mapping=TYPE_RENAMES, op_name=None, frag_mapping=FRAG_RENAMES):
+    """pure renaming of a program and its vectors: non-UpperCamelCase type (and operation) names, fragment
+    names that snake_case to keywords"""
     def ren(x):
         return mapping.get(x, x)
 
@@ -48,8 +51,12 @@ def rename_program(p, mapping=TYPE_RENAMES, op_name=None):
         d["on"] = ren(d["on"])
         if d["k"] == "op" and op_name:
             d["name"] = op_name
+        if d["k"] == "frag":
+            d["name"] = frag_mapping.get(d["name"], d["name"])
     for n in p["doc"]["nodes"]:
         n["on"] = ren(n["on"])
+        if n["k"] == "spread":
+            n["name"] = frag_mapping.get(n["name"], n["name"])
     for v in p["vectors"]:
         walk(v["payload"])
         walk(v["expect"])
